@@ -335,3 +335,243 @@ Proof.
   - simpl. split; [assumption|]. split; [assumption|]. split; [assumption|]. split; [assumption|].
     apply map_Forall_insert_2; [|assumption]. split; assumption.
 Qed.
+
+(* ---- delete ---- *)
+Lemma usearch_point_exact ps t i :
+  idx_ok ps -> ts_in_range t -> usearch ps (ts_span_range t 0) = (i, true) ->
+  exists s, getp ps i = Some s /\ p_start s <= t < p_end s.
+Proof.
+  intros Hok Ht Hu. rewrite span_range0 in Hu by assumption.
+  pose proof (usearch_spec ps (mkTR t t) Hok ltac:(split; assumption) ltac:(simpl; lia)) as Hs.
+  rewrite Hu in Hs. destruct Hs as (s & Hg & Hov). exists s. split; [assumption|].
+  pose proof (idx_ok_wf _ _ _ Hok Hg) as [Hr Hlt]. unfold p_start, p_end in *.
+  assert (Hm : overlaps_math (p_tr s) (mkTR t t)).
+  { apply overlaps_with_spec; [assumption|split; assumption|lia|simpl; lia|assumption]. }
+  unfold overlaps_math in Hm. simpl in Hm. lia.
+Qed.
+
+Lemma usearch_point_inexact ps t i :
+  idx_ok ps -> ts_in_range t -> usearch ps (ts_span_range t 0) = (i, false) ->
+  -1 <= i < zlen ps /\
+  (forall j p, getp ps j = Some p -> j <= i -> p_end p <= t) /\
+  (forall j p, getp ps j = Some p -> i < j -> t < p_start p).
+Proof.
+  intros Hok Ht Hu. rewrite span_range0 in Hu by assumption.
+  pose proof (usearch_spec ps (mkTR t t) Hok ltac:(split; assumption) ltac:(simpl; lia)) as Hs.
+  rewrite Hu in Hs. destruct Hs as (Hi & HL & HR). simpl in *. split; [assumption|]. split; [assumption|].
+  intros j p Hj Hlt. apply (HR j p Hj Hlt).
+Qed.
+
+Definition clampz (x hi : Z) : Z := Z.min (Z.max x 0) hi.
+
+Lemma validate_delete_true ps sd ed so eo ie so' eo' s e :
+  getp ps sd = Some s -> getp ps ed = Some e ->
+  validate_delete ps sd ed so eo = (true, ie, so', eo') ->
+  so' = clampz so (Z.of_N (p_size s)) /\ eo' = clampz eo (Z.of_N (p_size e)) /\
+  (sd <= ed \/ (sd = ed + 1 /\ so' = 0 /\ eo' = 0)) /\
+  (sd = ed -> so' + eo' < Z.of_N (p_size s)).
+Proof.
+  intros Hs He. unfold validate_delete.
+  destruct (sd =? zlen ps); [discriminate|]. destruct (ed =? -1); [discriminate|].
+  rewrite Hs, He.
+  set (so1 := if so <? 0 then 0 else so). set (eo1 := if eo <? 0 then 0 else eo).
+  set (sl := Z.of_N (p_size s)). set (el := Z.of_N (p_size e)).
+  set (so2 := if sl <? so1 then sl else so1). set (eo2 := if el <? eo1 then el else eo1).
+  assert (Hso2 : so2 = clampz so sl).
+  { unfold so2, so1, clampz. destruct (Z.ltb_spec so 0); [destruct (Z.ltb_spec sl 0)|destruct (Z.ltb_spec sl so)]; lia. }
+  assert (Heo2 : eo2 = clampz eo el).
+  { unfold eo2, eo1, clampz. destruct (Z.ltb_spec eo 0); [destruct (Z.ltb_spec el 0)|destruct (Z.ltb_spec el eo)]; lia. }
+  destruct ((ed <? sd) && (negb (sd =? ed + 1) || negb (so2 =? 0) || negb (eo2 =? 0))) eqn:C1; [discriminate|].
+  destruct ((sd =? ed) && (sl <? so2 + eo2)) eqn:C2; [discriminate|].
+  destruct ((sd =? ed - 1) && (so2 =? el) && (eo2 =? el) || (sd =? ed) && (so2 + eo2 =? sl)) eqn:C3; [discriminate|].
+  intros H. inversion H; subst so' eo' ie. split; [assumption|]. split; [assumption|].
+  apply orb_false_iff in C3. destruct C3 as [_ C3].
+  split.
+  - destruct (Z.ltb_spec ed sd) as [Hlt|Hge]; [|left; lia]. right. simpl in C1.
+    apply orb_false_iff in C1. destruct C1 as [C1 C1c]. apply orb_false_iff in C1. destruct C1 as [C1a C1b].
+    apply negb_false_iff in C1a, C1b, C1c. apply Z.eqb_eq in C1a, C1b, C1c. lia.
+  - intros Heq. subst ed. rewrite Z.eqb_refl in C2, C3. simpl in C2, C3.
+    apply Z.ltb_ge in C2. apply Z.eqb_neq in C3. rewrite Hs in He. inversion He; subst e. subst sl el. lia.
+Qed.
+
+Lemma firstn_app_exact {A} (l1 l2 : list A) n : length l1 = n -> firstn n (l1 ++ l2) = l1.
+Proof. intros <-. rewrite firstn_app, Nat.sub_diag, firstn_all. simpl. apply app_nil_r. Qed.
+Lemma skipn_app_exact {A} (l1 l2 : list A) n : length l1 = n -> skipn n (l1 ++ l2) = l2.
+Proof. intros <-. rewrite skipn_app, Nat.sub_diag, skipn_all. reflexivity. Qed.
+
+Lemma u32z_small z : 0 <= z < 2 ^ 32 -> u32z z = Z.to_N z.
+Proof. intros H. unfold u32z. rewrite Z.mod_small by lia. reflexivity. Qed.
+
+Lemma u32_sub_small a n : (n <= a)%N -> (a < 2 ^ 32)%N -> u32_sub a n = (a - n)%N.
+Proof.
+  intros Hle Ha. unfold u32_sub. rewrite u32_small by lia.
+  replace (a + 2 ^ 32 - n)%N with ((a - n) + 1 * 2 ^ 32)%N by lia.
+  rewrite N.mod_add by lia. apply N.mod_small. lia.
+Qed.
+
+(* Delete with the linear resolvers keeps the index well formed and within the files,
+   whatever the bounds (inverted, in gaps, inside one domain, across many). *)
+Lemma delete_lin_inv fs ps a b :
+  idx_ok ps -> Forall (ptr_in_files fs) ps -> Forall file_small fs ->
+  ts_in_range a -> ts_in_range b ->
+  idx_ok (fst (delete lin_resolver lin_resolver ps a b)) /\
+  Forall (ptr_in_files fs) (fst (delete lin_resolver lin_resolver ps a b)).
+Proof.
+  intros Hok Hpf Hsm Ha Hb. unfold delete.
+  destruct (usearch ps (ts_span_range a 0)) as [sd0 exs] eqn:Eus.
+  (* normalise the start part *)
+  assert (Hstart :
+    (exists sd s so a', (if exs then
+        match getp ps sd0 with
+        | Some s => match lin_resolver (p_start s) a with
+                    | Some (so, a') => inl (Some (sd0, s, so, a')) | None => inr (RErr EOther) end
+        | None => inr (RErr EOther) end
+      else let sd := sd0 + 1 in
+        if sd =? zlen ps then inl None
+        else match getp ps sd with Some s => inl (Some (sd, s, 0, p_start s)) | None => inr (RErr EOther) end)
+       = (inl (Some (sd, s, so, a')) : option (Z * pointer * Z * Z) + res) /\
+      getp ps sd = Some s /\ ts_in_range a' /\
+      (0 < so -> p_start s < a' /\ a' <= p_end s /\ so = a' - p_start s /\ a' = a /\ a < p_end s) /\
+      (so <= 0 -> so = 0) /\ p_start s <= a' /\ (exs = false -> a < p_start s)) \/
+    (exists r, (if exs then
+        match getp ps sd0 with
+        | Some s => match lin_resolver (p_start s) a with
+                    | Some (so, a') => inl (Some (sd0, s, so, a')) | None => inr (RErr EOther) end
+        | None => inr (RErr EOther) end
+      else let sd := sd0 + 1 in
+        if sd =? zlen ps then inl None
+        else match getp ps sd with Some s => inl (Some (sd, s, 0, p_start s)) | None => inr (RErr EOther) end)
+       = (r : option (Z * pointer * Z * Z) + res) /\ (r = inl None \/ exists x, r = inr x))).
+  { destruct exs.
+    - destruct (usearch_point_exact _ _ _ Hok Ha Eus) as (s & Hg & Hr). rewrite Hg. simpl.
+      left. exists sd0, s, (a - p_start s), a. split; [reflexivity|]. split; [assumption|]. split; [assumption|].
+      repeat split; try lia; try discriminate.
+    - destruct (usearch_point_inexact _ _ _ Hok Ha Eus) as (Hi & HL & HR). simpl.
+      destruct (Z.eqb_spec (sd0 + 1) (zlen ps)); [right; eexists; split; [reflexivity|auto]|].
+      destruct (getp_lookup ps (sd0 + 1)) as [s Hg]; [lia|]. rewrite Hg.
+      left. exists (sd0 + 1), s, 0, (p_start s). split; [reflexivity|]. split; [assumption|].
+      pose proof (idx_ok_wf _ _ _ Hok Hg) as [[Hr _] Hlt].
+      split; [exact Hr|]. repeat split; try lia. intros _. apply (HR (sd0 + 1) s Hg). lia. }
+  destruct Hstart as [(sd & s & so & a' & -> & Hgs & Ha' & Hso_pos & Hso_np & Hsa' & Hinex_s)|(r & -> & [->|[x ->]])];
+    [|simpl; auto|simpl; auto].
+  destruct (usearch ps (ts_span_range b 0)) as [ed0 exe] eqn:Eue.
+  assert (Hend :
+    (exists ed e eo b', (if exe then
+        match getp ps ed0 with
+        | Some e => match lin_resolver (p_start e) b with
+                    | Some (eo, b') => inl (Some (ed0, e, Z.of_N (p_size e) - eo, b')) | None => inr (RErr EOther) end
+        | None => inr (RErr EOther) end
+      else if ed0 =? -1 then inl None
+        else match getp ps ed0 with Some e => inl (Some (ed0, e, 0, p_end e)) | None => inr (RErr EOther) end)
+       = (inl (Some (ed, e, eo, b')) : option (Z * pointer * Z * Z) + res) /\
+      getp ps ed = Some e /\ ts_in_range b' /\
+      (0 < eo -> p_start e <= b' /\ b' < p_end e /\ eo = Z.of_N (p_size e) - (b' - p_start e) /\ b' = b) /\
+      b' <= p_end e /\ (exe = false -> p_end e <= b /\ eo = 0)) \/
+    (exists r, (if exe then
+        match getp ps ed0 with
+        | Some e => match lin_resolver (p_start e) b with
+                    | Some (eo, b') => inl (Some (ed0, e, Z.of_N (p_size e) - eo, b')) | None => inr (RErr EOther) end
+        | None => inr (RErr EOther) end
+      else if ed0 =? -1 then inl None
+        else match getp ps ed0 with Some e => inl (Some (ed0, e, 0, p_end e)) | None => inr (RErr EOther) end)
+       = (r : option (Z * pointer * Z * Z) + res) /\ (r = inl None \/ exists x, r = inr x))).
+  { destruct exe.
+    - destruct (usearch_point_exact _ _ _ Hok Hb Eue) as (e & Hg & Hr). rewrite Hg. simpl.
+      left. exists ed0, e, (Z.of_N (p_size e) - (b - p_start e)), b. split; [reflexivity|]. split; [assumption|].
+      split; [assumption|]. repeat split; try lia; try discriminate.
+    - destruct (usearch_point_inexact _ _ _ Hok Hb Eue) as (Hi & HL & HR).
+      destruct (Z.eqb_spec ed0 (-1)); [right; eexists; split; [reflexivity|auto]|].
+      destruct (getp_lookup ps ed0) as [e Hg]; [lia|]. rewrite Hg.
+      left. exists ed0, e, 0, (p_end e). split; [reflexivity|]. split; [assumption|].
+      pose proof (idx_ok_wf _ _ _ Hok Hg) as [[_ Hr] Hlt].
+      split; [exact Hr|]. repeat split; try lia. apply (HL ed0 e Hg). lia. }
+  destruct Hend as [(ed & e & eo & b' & -> & Hge & Hb' & Heo_pos & Heb' & Hinex_e)|(r & -> & [->|[x ->]])];
+    [|simpl; auto|simpl; auto].
+  destruct (validate_delete ps sd ed so eo) as [[[ok ie] so'] eo'] eqn:Ev.
+  destruct ok; [|simpl; auto]. simpl.
+  destruct (validate_delete_true _ _ _ _ _ _ _ _ _ _ Hgs Hge Ev) as (Hso' & Heo' & Hord & Hsame).
+  pose proof (getp_Some _ _ _ Hgs) as Hsdr. pose proof (getp_Some _ _ _ Hge) as Hedr.
+  pose proof (idx_ok_wf _ _ _ Hok Hgs) as [[Hsr1 Hsr2] Hslt].
+  pose proof (idx_ok_wf _ _ _ Hok Hge) as [[Her1 Her2] Helt].
+  (* the list is a splice of ps *)
+  assert (Hlen1 : length (firstn (Z.to_nat sd) ps) = Z.to_nat sd).
+  { rewrite firstn_length. unfold zlen in *. lia. }
+  rewrite (firstn_app_exact _ _ _ Hlen1), (skipn_app_exact _ _ _ Hlen1).
+  (* facts about pointers in files *)
+  rewrite Forall_forall in Hpf.
+  pose proof (Hpf s (getp_In _ _ _ Hgs)) as (fS & HfS & HbS & HzS).
+  pose proof (Hpf e (getp_In _ _ _ Hge)) as (fE & HfE & HbE & HzE).
+  rewrite Forall_forall in Hsm.
+  pose proof (Hsm fS (proj2 (get_file_Some _ _ _ HfS))) as HsmS.
+  pose proof (Hsm fE (proj2 (get_file_Some _ _ _ HfE))) as HsmE.
+  unfold file_small in HsmS, HsmE.
+  rewrite <- Forall_forall in Hpf.
+  set (new_s := if so' =? 0 then [] else [mkPtr (mkTR (p_start s) a') (p_file s) (p_off s) (u32z so')]).
+  set (new_e := if eo' =? 0 then []
+                else [mkPtr (mkTR b' (p_end e)) (p_file e) (u32_sub (u32 (p_off e + p_size e)) (u32z eo')) (u32z eo')]).
+  unfold clampz in Hso', Heo'.
+  assert (Hsed : sd <= ed + 1) by lia.
+  assert (Hse_le : sd <= ed -> p_end s <= p_end e /\ p_start s <= p_start e).
+  { intros Hle. destruct (Z.eq_dec sd ed) as [->|Hne].
+    - rewrite Hgs in Hge. inversion Hge; subst. lia.
+    - pose proof (idx_ok_lookup_lt _ Hok sd ed s e Hgs Hge ltac:(lia)). lia. }
+  assert (Hmid_ok : idx_ok (new_s ++ new_e) /\
+                    (forall m, In m (new_s ++ new_e) -> p_start s <= p_start m /\ p_end m <= p_end e /\ sd <= ed) /\
+                    Forall (ptr_in_files fs) (new_s ++ new_e)).
+  { assert (HS : so' <> 0 -> ptr_wf (mkPtr (mkTR (p_start s) a') (p_file s) (p_off s) (u32z so')) /\
+                 ptr_in_files fs (mkPtr (mkTR (p_start s) a') (p_file s) (p_off s) (u32z so')) /\ 0 < so).
+    { intros Hnz. assert (0 < so) by lia. destruct (Hso_pos H) as (? & ? & ? & ? & ?).
+      split; [split; [split; assumption|simpl; unfold p_start, p_end; simpl; lia]|]. split; [|assumption].
+      exists fS. simpl. split; [assumption|]. rewrite u32z_small by lia. lia. }
+    assert (HE : eo' <> 0 -> ptr_wf (mkPtr (mkTR b' (p_end e)) (p_file e) (u32_sub (u32 (p_off e + p_size e)) (u32z eo')) (u32z eo')) /\
+                 ptr_in_files fs (mkPtr (mkTR b' (p_end e)) (p_file e) (u32_sub (u32 (p_off e + p_size e)) (u32z eo')) (u32z eo')) /\ 0 < eo).
+    { intros Hnz. assert (0 < eo) by lia. destruct (Heo_pos H) as (? & ? & ? & ?).
+      split; [split; [split; assumption|simpl; unfold p_start, p_end; simpl; lia]|]. split; [|assumption].
+      exists fE. simpl. split; [assumption|]. rewrite u32z_small by lia. rewrite u32_small by lia.
+      rewrite u32_sub_small by lia. lia. }
+    assert (Hab : so' <> 0 -> eo' <> 0 -> a' <= b').
+    { intros H1 H2. destruct (HS H1) as (_ & _ & Hp1). destruct (HE H2) as (_ & _ & Hp2).
+      destruct (Hso_pos Hp1) as (? & ? & ? & ? & ?). destruct (Heo_pos Hp2) as (? & ? & ? & ?).
+      destruct Hord as [Hle|(? & ? & ?)]; [|lia].
+      destruct (Z.eq_dec sd ed) as [Heq|Hne].
+      - specialize (Hsame Heq). subst ed. rewrite Hgs in Hge. inversion Hge; subst e. lia.
+      - pose proof (idx_ok_lookup_lt _ Hok sd ed s e Hgs Hge ltac:(lia)). lia. }
+    assert (Hle_needed : so' <> 0 \/ eo' <> 0 -> sd <= ed) by (destruct Hord as [?|(? & ? & ?)]; lia).
+    unfold new_s, new_e.
+    destruct (Z.eqb_spec so' 0) as [Hs0|Hs0]; destruct (Z.eqb_spec eo' 0) as [He0|He0]; simpl.
+    - split; [apply idx_ok_nil|]. split; [intros ? []|constructor].
+    - destruct (HE He0) as (Hw & Hf & _). split; [|split].
+      + apply idx_ok_cons. split; [assumption|]. split; [apply idx_ok_nil|intros ? []].
+      + intros m [<-|[]]. destruct (Heo_pos ltac:(lia)) as (? & ? & ? & ?).
+        specialize (Hse_le ltac:(lia)). unfold p_start, p_end in *. simpl. lia.
+      + constructor; [assumption|constructor].
+    - destruct (HS Hs0) as (Hw & Hf & _). split; [|split].
+      + apply idx_ok_cons. split; [assumption|]. split; [apply idx_ok_nil|intros ? []].
+      + intros m [<-|[]]. destruct (Hso_pos ltac:(lia)) as (? & ? & ? & ? & ?).
+        specialize (Hse_le ltac:(lia)). unfold p_start, p_end in *. simpl. lia.
+      + constructor; [assumption|constructor].
+    - destruct (HS Hs0) as (Hw1 & Hf1 & _). destruct (HE He0) as (Hw2 & Hf2 & _).
+      specialize (Hab Hs0 He0). split; [|split].
+      + apply idx_ok_cons. split; [assumption|]. split.
+        * apply idx_ok_cons. split; [assumption|]. split; [apply idx_ok_nil|intros ? []].
+        * intros x [<-|[]]. unfold before, p_start, p_end. simpl. assumption.
+      + destruct (Hso_pos ltac:(lia)) as (? & ? & ? & ? & ?). destruct (Heo_pos ltac:(lia)) as (? & ? & ? & ?).
+        specialize (Hse_le ltac:(lia)).
+        intros m [<-|[<-|[]]]; unfold p_start, p_end in *; simpl; lia.
+      + constructor; [assumption|]. constructor; [assumption|constructor]. }
+  destruct Hmid_ok as (Hmid & Hbounds & Hmidf).
+  replace (new_s ++ new_e ++ skipn (Z.to_nat (ed + 1)) ps) with ((new_s ++ new_e) ++ skipn (Z.to_nat (ed + 1)) ps)
+    by (rewrite app_assoc; reflexivity).
+  split.
+  - apply idx_ok_splice; auto; try lia.
+    + intros x m Hx Hm. destruct (Hbounds m Hm) as (H1 & _ & _).
+      destruct (In_firstn_getp ps sd x ltac:(lia) Hx) as (j & Hj & Hg).
+      pose proof (idx_ok_lookup_lt _ Hok j sd x s Hg Hgs ltac:(lia)). unfold before. lia.
+    + intros m y Hm Hy. destruct (Hbounds m Hm) as (_ & H2 & _).
+      destruct (In_skipn_getp ps (ed + 1) y ltac:(lia) Hy) as (j & Hj & Hg).
+      pose proof (idx_ok_lookup_lt _ Hok ed j e y Hge Hg ltac:(lia)). unfold before. lia.
+  - rewrite Forall_forall in *. intros x Hx. apply in_app_or in Hx. destruct Hx as [Hx|Hx].
+    + apply Hpf. eapply In_firstn; eauto.
+    + apply in_app_or in Hx. destruct Hx as [Hx|Hx]; [apply Hmidf; assumption|].
+      apply Hpf. eapply In_skipn; eauto.
+Qed.
